@@ -109,7 +109,23 @@ class ByteArrayShim(metaclass=_Meta):
         return _bytearray(x)
 
 
-_SHIMS = {"int": IntShim, "float": FloatShim, "bytes": BytesShim, "bytearray": ByteArrayShim}
+class StrShim(metaclass=_Meta):
+    _real = str
+
+    def __new__(cls, x="", *a, **k):
+        from .strings import SymText
+        if a or k:
+            return str(x, *a, **k)
+        if isinstance(x, SymInt):
+            return SymText("dec", x)
+        if isinstance(x, (SymStr, SymText)):
+            return x
+        if isinstance(x, (SymFloat, _SB)):
+            raise Unsupported("str() of a symbolic float / byte string")
+        return str(x)
+
+
+_SHIMS = {"str": StrShim, "int": IntShim, "float": FloatShim, "bytes": BytesShim, "bytearray": ByteArrayShim}
 
 _saved = []  # (obj, attr, had, old)
 _active = {"on": False}
